@@ -654,7 +654,7 @@ func (g *syn) array(depth int) string {
 		}
 		if g.chance(20, "arrkey") {
 			sb.WriteString("[" + g.pick("arrkeyv", "0", "1+1", "k", `"a b"`, "i") + "]=")
-			if g.chance(15, "arremptyv") {
+			if i == n-1 && g.chance(25, "arremptyv") {
 				continue
 			}
 		}
